@@ -582,6 +582,10 @@ let eval (fn : string) (args : string list) : string =
     (match parseBlocksTree (bytes_of_hex src) with
      | Ok (t, refs) -> print_tree t ^ "#" ^ print_refs refs
      | Panic -> "PANIC" | OutOfFuel -> "FUEL")
+  | "ParseTree", [src] ->
+    (match parseTree (bytes_of_hex src) with
+     | Ok t -> print_tree t
+     | Panic -> "PANIC" | OutOfFuel -> "FUEL")
   | "ReaderProg", [src; script] ->
     let b = bytes_of_hex src in
     run_reader_prog plain_ops (new_reader b) (List.length b) script
